@@ -19,5 +19,5 @@ Lemma pins_C15_ok :
   ; "744d04132d827f2e2e74601bbf748af3be112ae4082a0ad6ee9e89fa0b6fca19"   (* scml.py: _BaseSCML._to_index_points *)
   ; "314301b1b43592ac62524c1bb7add4f002d1000cec6c2422eb9f752709ed1e67"   (* scml.py: _BaseSCML._initialize_basis *)
   ; "20513858059a815c7dff6add021d457ae6e7c06178638be5985be9629391e8d7"   (* scml.py: _BaseSCML._generate_bases_dist_diff *)
-  ; "2cced321db28e517d0bbf4dba7f06167a3217c7ae48815f442a47021d1fc8706"   (* scml.py: SCML_Supervised._generate_bases_LDA *) ].
+  ; "bd351422dc660869e4b3f258a1e4f505fe7ef8eeaedbe1fdd45276c5d9516bec"   (* scml.py: SCML_Supervised._generate_bases_LDA *) ].
 Proof. reflexivity. Qed.
